@@ -237,8 +237,21 @@ func drawPKI(t *rapid.T) *pki {
 	valGen := rapid.SampledFrom([]string{"ok", "ok", "ok", "ok", "ok", "ok", "ok", "ok", "ok", "ok", "ok", "ok", "expired", "notyet", "edge_start", "edge_end"})
 	// (decipherOnly is the ninth bit, alone in the second octet of the BIT STRING: a key usage that asserts only it, or
 	// only encipherOnly, is present and does not include keyCertSign)
-	kuGen := rapid.SampledFrom([]gx.KeyUsage{0, 0, 0, gx.KeyUsageCertSign, gx.KeyUsageCertSign, gx.KeyUsageCertSign | gx.KeyUsageCRLSign, gx.KeyUsageCertSign | gx.KeyUsageCRLSign, gx.KeyUsageCertSign | gx.KeyUsageDigitalSignature, gx.KeyUsageCertSign | gx.KeyUsageDigitalSignature, gx.KeyUsageDigitalSignature,
+	kuList := rapid.SampledFrom([]gx.KeyUsage{0, 0, 0, gx.KeyUsageCertSign, gx.KeyUsageCertSign, gx.KeyUsageCertSign | gx.KeyUsageCRLSign, gx.KeyUsageCertSign | gx.KeyUsageCRLSign, gx.KeyUsageCertSign | gx.KeyUsageDigitalSignature, gx.KeyUsageCertSign | gx.KeyUsageDigitalSignature, gx.KeyUsageDigitalSignature,
 		gx.KeyUsageDecipherOnly, gx.KeyUsageEncipherOnly, gx.KeyUsageCertSign | gx.KeyUsageDecipherOnly, gx.KeyUsageKeyAgreement | gx.KeyUsageDecipherOnly})
+	// one draw in four: any of the 511 non-empty masks over the nine bits, keyCertSign removed from half of them (so every
+	// other bit, cRLSign included, also appears alone or in company WITHOUT keyCertSign)
+	kuMask := rapid.Custom(func(t *rapid.T) gx.KeyUsage {
+		m := gx.KeyUsage(rapid.IntRange(1, 511).Draw(t, "kumask"))
+		if rapid.Bool().Draw(t, "kuNoCertSign") {
+			m &^= gx.KeyUsageCertSign
+			if m == 0 {
+				m = gx.KeyUsageCRLSign
+			}
+		}
+		return m
+	})
+	kuGen := rapid.OneOf(kuList, kuList, kuList, kuMask)
 	mplGen := rapid.SampledFrom([]int{-1, -1, -1, -1, -1, -1, 0, 1, 1, 2})
 	ncGen := rapid.SampledFrom([][]string{nil, nil, nil, nil, nil, nil, nil, nil, nil, {"example.com"}, {"example.com"}, {".example.com"}, {"other.org"}, {"example.com", "other.org"}})
 	caAttrs := func(s *spec, hostile bool) {
